@@ -60,6 +60,7 @@ func main() {
 			coef[i] = rng.Uint64() | 1
 		}
 		runConcurrent(n, coef)
+		runColdConcurrent(n, coef, common.Pick(150, 2000))
 	}
 }
 
@@ -261,6 +262,62 @@ func runConcurrent(n int, coef []uint64) {
 	rec.Count("concurrent_calls", 8*300)
 	if b := bad.Load(); b > 0 {
 		rec.Violate(fmt.Sprintf("C20/Pipe%d/result", n), fmt.Sprintf("%d of 2400 concurrent calls of one composed function returned a wrong value", b), c)
+	}
+}
+
+// runColdConcurrent: the very first evaluations of a freshly composed function come from several goroutines at the same
+// moment (a pipeline stored in a package variable and first used by request handlers); many fresh pipelines per arity.
+func runColdConcurrent(n int, coef []uint64, trials int) {
+	c := caseT{Family: "cold-concurrent", N: n, Coef: coef}
+	fs := make([]func(uint64) uint64, n)
+	for i := range fs {
+		i := i
+		fs[i] = func(x uint64) uint64 { return x*coef[2*i] + coef[2*i+1] }
+	}
+	want := func(a uint64) uint64 {
+		for i := 0; i < n; i++ {
+			a = a*coef[2*i] + coef[2*i+1]
+		}
+		return a
+	}
+	var bad atomic.Int64
+	var first atomic.Value
+	for t := 0; t < trials && bad.Load() == 0; t++ {
+		f := composeI(fs)
+		start := make(chan struct{})
+		var wg sync.WaitGroup
+		for g := 0; g < 6; g++ {
+			wg.Add(1)
+			go func(g int) {
+				defer wg.Done()
+				defer func() {
+					if p := recover(); p != nil {
+						bad.Add(1)
+						first.CompareAndSwap(nil, fmt.Sprintf("trial %d: panic %v", t, p))
+					}
+				}()
+				<-start
+				for k := 0; k < 3; k++ {
+					a := uint64(t*100 + g*10 + k)
+					if got := f(a); got != want(a) {
+						bad.Add(1)
+						first.CompareAndSwap(nil, fmt.Sprintf("trial %d: f(%d) = %d, want %d", t, a, got, want(a)))
+					}
+				}
+			}(g)
+		}
+		close(start)
+		wg.Wait()
+		// and the pipeline is whole afterwards
+		if got := f(7); got != want(7) {
+			bad.Add(1)
+			first.CompareAndSwap(nil, fmt.Sprintf("trial %d: sequential call after the concurrent first ones: f(7) = %d, want %d", t, got, want(7)))
+		}
+	}
+	rec.Eval(fmt.Sprint("cold", n, coef[0]), true)
+	rec.Count("concurrent_calls", int64(trials*18))
+	if bad.Load() > 0 {
+		rec.Violate(fmt.Sprintf("C20/Pipe%d/result", n), fmt.Sprintf("first evaluations of a freshly composed function by 6 goroutines at once: %v", first.Load()), c)
 	}
 }
 
